@@ -25,6 +25,7 @@ RULE = ('small reference images (<= ~2 KB) of uamiv, lateral boundary, '
         'evaluations = prefixes opened; non-trivial = every prefix (each is '
         'a distinct crash point); distinct = digest of (image spec, cut).')
 RULE += (" Wind images up to 4 steps; gridded prefixes are also opened with mode='r+' (what is then readable is judged the same way; the file size afterwards is a note, not a verdict).")
+RULE += (' Where a prefix is itself a valid shorter file, its TFLAG/ETFLAG are compared with the same steps of the full file as well.')
 ASSUMPTIONS = [
     'payloads are distinct and non-zero, so zero-filled, shifted or '
     'fabricated values cannot coincide with the right ones',
